@@ -279,7 +279,8 @@ class PropertyCheck(object):
 
     def refute_ground(self, E, lengths=(0, 1, 2)):
         """Refutation mode for functions with undecided clauses (DESIGN.md 2.9)."""
-        tmo = 10000
+        tmo = 5000
+        deadline = time.time() + 90          # refutation is an extra: it must not turn a check into a long run
         funcs = {}
         for it in self.items:
             if it.result == 'unknown' and it.kind == 'K' and it.extra.get('target') \
@@ -287,13 +288,16 @@ class PropertyCheck(object):
                 funcs.setdefault(it.extra['target'], []).append(it)
         for target, its in funcs.items():
             found = {}
+            wanted = set(it.clause for it in its)
             for n in lengths:
+                if time.time() > deadline:
+                    break
                 try:
                     res = E.verify(target, ground=n)
                 except Exception:
                     continue
                 for o in res.obligations:
-                    if o.clause in found:
+                    if o.clause in found or o.clause not in wanted or time.time() > deadline:
                         continue
                     g = Item(o.clause, 'K', o.pc, o.goal, o.func, o.lineno, o.note, dict(o.extra, trail=o.trail, ground=n))
                     discharge(g, tmo)
